@@ -200,7 +200,7 @@ func (runInfo *runInfoStruct) runVarStmt(stmt *ast.VarStmt) {
 		if runInfo.err != nil {
 			return
 		}
-		if env, ok := runInfo.rv.Interface().(*env.Env); ok {
+		if env, ok := runInfo.rv.Interface().(*env.Env); ok && env != nil {
 			rvs[i] = reflect.ValueOf(env.DeepCopy())
 		} else {
 			rvs[i] = runInfo.rv
@@ -248,7 +248,7 @@ func (runInfo *runInfoStruct) runLetsStmt(stmt *ast.LetsStmt) {
 		if runInfo.err != nil {
 			return
 		}
-		if env, ok := runInfo.rv.Interface().(*env.Env); ok {
+		if env, ok := runInfo.rv.Interface().(*env.Env); ok && env != nil {
 			rvs[i] = reflect.ValueOf(env.DeepCopy())
 		} else {
 			rvs[i] = runInfo.rv
